@@ -415,6 +415,22 @@ class Builder:
                     ins(lo, lines)
                 elif arg == 'body.end':
                     ins(hi, lines)
+                elif arg == 'body.tail':
+                    # just before the tail expression: after the last `;` at the body's own brace depth (no text of the tail is named,
+                    # so a change to the tail expression cannot lose this anchor)
+                    depth, last = 0, None
+                    for q in range(lo, hi):
+                        ch = s.mask[q]
+                        if ch in '([{':
+                            depth += 1
+                        elif ch in ')]}':
+                            depth -= 1
+                        elif ch == ';' and depth == 0:
+                            last = q
+                    if last is None:
+                        self.problems.append('%s: body.tail: no statement before the tail expression' % key)
+                    else:
+                        ins(last + 1, lines)
                 else:
                     mm = re.match(r'loop (\d+)\.(start|end|after)', arg)
                     n = int(mm.group(1))
